@@ -26,6 +26,7 @@ var c19Docs = []struct{ name, text string }{
 	{"false", "false\n"},
 	{"bad", "a: [\n"},
 	{"seq-of-maps", "- {a: v1, b: 42}\n- {a: w2, b: {n: deep9}}\n"},
+	{"attribute-key-with-a-map", "r:\n  +@id: {deep8: leaf9}\n  c: t7\n"}, // what the XML encoder takes for an attribute holds a map
 	{"seq-mixed", "- {a: v1, b: 42}\n- lone8\n- [k5, {z: q6}]\n"}, // rows of different kinds after a first row that is a map
 }
 
@@ -207,6 +208,17 @@ func c19Check(work string, cs c19Case) (kind, detail, outcome string) {
 			return "null-input", fmt.Sprintf("yq -n %v with undecodable stdin: exit %d stdout %q stderr %q (expected %q)", cs.Extra, exit, out, serr, cs.Expr), outcome
 		}
 		return "", "", outcome
+	case "auto-format-stdin":
+		// the first input is stdin (`-`), which has no extension: both formats are YAML whatever the later file is called
+		n := "later." + cs.Extra[0]
+		os.WriteFile(filepath.Join(dir, n), []byte(`{"b": 42}`+"\n"), 0o644)
+		auto, aerr, aexit, _ := c19RunWithStdin(dir, "a: v1\n", cs.Expr, "-", n)
+		expl, eerr, eexit, _ := c19RunWithStdin(dir, "a: v1\n", "-p=yaml", "-o=yaml", cs.Expr, "-", n)
+		outcome = fmt.Sprintf("exit=%d", aexit)
+		if aexit != eexit || auto != expl {
+			return "auto-format", fmt.Sprintf("yq %s - %s: automatic choice gives exit %d %q (%s); -p=yaml -o=yaml gives exit %d %q (%s)", cs.Expr, n, aexit, clip(auto, 150), clip(aerr, 100), eexit, clip(expl, 150), clip(eerr, 100)), outcome
+		}
+		return "", "", outcome
 	case "auto-format":
 		// cs.Extra = [content-kind..., ext1, (ext2)]: the first file's extension names both formats
 		exts := cs.Extra
@@ -293,7 +305,7 @@ func c19Run(c *fw.Ctx) error {
 			}
 		}
 	}
-	c.Res.Bound = fmt.Sprintf("%d input histories x %d expressions x %d output formats x %d flag sets (full product), -n with undecodable stdin, automatic format choice for every extension and every pair of extensions", len(hist), len(c19Exprs), len(c19Formats), len(c19FlagSets))
+	c.Res.Bound = fmt.Sprintf("%d input histories x %d expressions x %d output formats x %d flag sets (full product), -n with undecodable stdin, automatic format choice for every extension and every pair of extensions, and with stdin as the first input", len(hist), len(c19Exprs), len(c19Formats), len(c19FlagSets))
 	var idx int64
 	run := func(cs c19Case, order int64) {
 		idx++
@@ -339,6 +351,7 @@ func c19Run(c *fw.Ctx) error {
 	for _, e1 := range exts {
 		run(c19Case{Section: "auto-format", Expr: ".", Extra: []string{e1}}, 10)
 		run(c19Case{Section: "auto-format", Expr: ".a", Extra: []string{e1}}, 10)
+		run(c19Case{Section: "auto-format-stdin", Expr: ".", Extra: []string{e1}}, 15)
 		for _, e2 := range exts {
 			run(c19Case{Section: "auto-format", Expr: ".", Extra: []string{e1, e2}}, 20)
 		}
